@@ -1272,6 +1272,29 @@ def _inline_new_helpers(tree, relpath):
     helpers = {}     # ('Class' or '', name) -> FunctionDef
 
     all_names = [x.name for x in ast.walk(tree) if isinstance(x, (ast.FunctionDef, ast.AsyncFunctionDef))]
+    # a known function that is gone was probably renamed: what is new in its scope is then that function under its new name,
+    # not a helper extracted from somewhere
+    present = set()
+
+    def quals(owner, q_):
+        for n in owner.body:
+            if isinstance(n, (ast.FunctionDef, ast.AsyncFunctionDef, ast.ClassDef)):
+                qq = (q_ + '.' if q_ else '') + n.name
+                present.add(qq)
+                quals(n, qq)
+    quals(tree, '')
+    missing = known - present
+
+    def scope_of(q_):
+        """the class, or the outermost function, a qualified name lives in"""
+        parts = q_.split('.')
+        if len(parts) == 1:
+            return ''
+        if parts[0] in classes_:
+            return '.'.join(parts[:2]) if len(parts) > 2 else parts[0]
+        return parts[0]
+    classes_ = {n.name for n in tree.body if isinstance(n, ast.ClassDef)}
+    renamed_scopes = {scope_of(m) for m in missing}
 
     def collect(owner, cls, qual=''):
         for n in owner.body:
@@ -1284,6 +1307,8 @@ def _inline_new_helpers(tree, relpath):
                 # closures defined inside a function: candidates too when the name is unique in the unit
                 collect(n, cls, q_)
                 if nested and (all_names.count(n.name) != 1 or decos):
+                    continue
+                if scope_of(q_) in renamed_scopes:
                     continue
                 if q_ not in known and all(d_ in ('staticmethod', 'classmethod') for d_ in decos) and not n.args.vararg and not n.args.kwarg \
                         and not any(isinstance(x, (ast.FunctionDef, ast.AsyncFunctionDef, ast.Lambda, ast.Global, ast.Nonlocal)) for x in _own_walk(n)):
